@@ -35,11 +35,8 @@ func checkC03(c *Ctx) {
 	c03FastInt(c, p)
 	c03Exponent(c, p)
 	if c.Tier == "thorough" {
-		c03Drift(c, p)
-		for _, o := range []loadOpts{{env: []string{"GOARCH=386"}}} {
-			p2 := mustLoad(c, o, "./benchfmt", "./benchfmt/internal/bytesconv")
-			c03FastInt(c, p2)
-			c03FastFloat(c, p2)
+		if c.override == nil {
+			c03Drift(c, p)
 		}
 	}
 }
